@@ -3,4 +3,5 @@ import Driver.Misc
 import Driver.Server
 import Driver.Life
 import Driver.Net
+import Driver.Tls
 import Driver.Main
